@@ -470,6 +470,28 @@ func addString(values []string, target string) []string {
 	return append(values, target)
 }
 
+// directivesInPathOrderLocked lists the directives of the root journal followed by those of
+// the included files in path order. The order of resolved.FileOrder depends on the history of
+// updates (a file that becomes reachable again is appended at the end), so it must not decide
+// which of two declarations of the same commodity wins.
+func (w *Workspace) directivesInPathOrderLocked() []ast.Directive {
+	var result []ast.Directive
+	if w.resolved.Primary != nil {
+		result = append(result, w.resolved.Primary.Directives...)
+	}
+	paths := make([]string, 0, len(w.resolved.Files))
+	for path := range w.resolved.Files {
+		paths = append(paths, path)
+	}
+	sort.Strings(paths)
+	for _, path := range paths {
+		if journal := w.resolved.Files[path]; journal != nil {
+			result = append(result, journal.Directives...)
+		}
+	}
+	return result
+}
+
 func (w *Workspace) GetCommodityFormats() map[string]formatter.NumberFormat {
 	w.mu.RLock()
 	if w.cachedFormats != nil {
@@ -490,7 +512,7 @@ func (w *Workspace) GetCommodityFormats() map[string]formatter.NumberFormat {
 	}
 
 	formats := make(map[string]formatter.NumberFormat)
-	for _, dir := range w.resolved.AllDirectives() {
+	for _, dir := range w.directivesInPathOrderLocked() {
 		if cd, ok := dir.(ast.CommodityDirective); ok {
 			if cd.Format != "" {
 				formats[cd.Commodity.Symbol] = formatter.ParseNumberFormat(cd.Format)
